@@ -136,6 +136,7 @@ def register(PROPS):
         return cmp_enc(case, go, m, s)
 
     PROPS["C02"] = {
+        "generated_layer": True,
         "gens": [{"id": "C02", "quick": 30000, "thorough": 1200000, "thorough_seeds": 12},
                  {"id": "C19", "quick": 6000, "thorough": 200000, "thorough_seeds": 8}],
         "compare": cmp_c02,
@@ -149,6 +150,7 @@ def register(PROPS):
         "assumptions": MSG_ASSUME + ["sse.Read is given the whole wire form in one read (segmentation is C01's subject)"],
     }
     PROPS["C15"] = {
+        "generated_layer": True,
         "gens": [{"id": "C15", "quick": 40000, "thorough": 1500000, "thorough_seeds": 12}],
         "compare": cmp_c15,
         "nontrivial": lambda c, g: not (g.startswith("0 | nil") or g.startswith("UEOF")),
@@ -159,6 +161,7 @@ def register(PROPS):
         "assumptions": MSG_ASSUME,
     }
     PROPS["C14"] = {
+        "generated_layer": True,
         "gens": [{"id": "C14", "quick": 30000, "thorough": 1000000, "thorough_seeds": 12}],
         "compare": cmp_c14,
         "nontrivial": lambda c, g: True,
